@@ -331,7 +331,7 @@ fn merge(a: &mut Out, b: Out) {
 }
 
 fn scan_prefixes(set: u8) -> Vec<Vec<KOp>> {
-    let p: Vec<Vec<u8>> = if set == 2 {
+    let p: Vec<Vec<u8>> = if set != 1 {
         vec![vec![], vec![0xE0], vec![0xE1], vec![0xF0], vec![0xE0, 0xF0], vec![0xE1, 0xF0]]
     } else {
         vec![vec![], vec![0xE0], vec![0xE1]]
@@ -508,8 +508,9 @@ pub fn run<D: Dec>(rep: &mut Report) {
     let n_hist = total / hist_len;
     let shards = par_map(threads, move |t| {
         let mut out = Out::default();
-        let r = ref_for(set);
-        let typist = Typist::new(set, &r);
+        let tset = if set == 1 { 1 } else { 2 };
+        let r = ref_for(tset);
+        let typist = Typist::new(tset, &r);
         let mut h = t as u64;
         while h < n_hist {
             let mut rng = Rng::fork(seed, 0xC18_0000 + (h << 2) + set as u64);
@@ -612,6 +613,8 @@ pub fn hostile_ops(rng: &mut Rng, typist: &Typist, len: usize) -> Vec<KOp> {
 pub fn run_both(rep: &mut Report) {
     run::<ScancodeSet2>(rep);
     run::<ScancodeSet1>(rep);
+    // the scancode stage is a type parameter: the same must hold over a user-defined set that returns every kind of result
+    run::<ScriptedSet>(rep);
     rep.exhaustive = Some(false);
     rep.rule = "differential: every operation is applied to a real Keyboard and to a separately owned real Ps2Decoder, ScancodeSetN and EventDecoder wired as the statement says; results must be equal, the Keyboard's Debug rendering must contain each separate stage's rendering after every operation, and the rendering of a stage the operation does not feed must be unchanged; \
                 per-operation sweeps over the fed stage's state × input with the other stages parked in non-initial states (all 2047 partial frames, all 6/3 prefix states, 64 modifier states), plus seeded hostile interleavings of all six operations with line noise, both scancode sets; \
